@@ -135,7 +135,7 @@ let polls_in (r : run) (name : string) : int option =
    this very input is a new one, whatever its syntactic shape: the class is then withdrawn. *)
 let model_obs (c : case) (r : run) (entry : string) : obs =
   let lib = fast (mk_lib (ctx_fixed c.tzoff now_sec)
-      (fun pat flags subj -> match List.assoc_opt (unchars pat, int_of_z flags, unchars subj) c.retab with Some b -> b | None -> false)
+      (fun pat flags subj -> match List.assoc_opt (unchars pat, int_of_z flags, unchars subj) c.retab with Some b -> b | None -> missed := true; false)
       members_in_order) in
   let o = opts_of c r in
   match entry with
@@ -144,8 +144,15 @@ let model_obs (c : case) (r : run) (entry : string) : obs =
   | "exists" -> obs_of_b (api_exists lib fuel c.path c.doc o)
   | "match" -> obs_of_b (api_match lib fuel c.path c.doc o)
   | _ -> obs_of_b (api_eom lib fuel c.path c.doc o)
+let kv_value_dependent : (case -> bool) ref = ref (fun _ -> false)   (* set below, once id_flows_on is defined *)
 let known_by_model (c : case) (r : run) (entry : string) (impl : obs) : bool =
-  c.unordered || obs_eqb c.unordered c.kv impl (model_obs c r entry)
+  (* where a .keyvalue() id (a heap address; a tag in the model) flows into further steps the model cannot
+     reproduce the implementation's numbers: the class guessed from the path's shape stands *)
+  c.unordered || !kv_value_dependent c
+  || (missed := false;
+      let m = model_obs c r entry in
+      (* a like_regex subject the harness did not tabulate (e.g. the text of a number): the model's answer is not usable *)
+      !missed || obs_eqb c.unordered c.kv impl m)
 let narrow (c : case) (r : run) (entry : string) (impl : obs) (cls : string) : string =
   if cls <> "NONE" && not (known_by_model c r entry impl) then "NONE" else cls
 
@@ -174,6 +181,12 @@ let rec id_flows_on (top : bool) (ch : chain) : bool =
         | SIndex subs -> List.exists (fun (x, y) -> id_flows_on false x || (match y with Some c -> id_flows_on false c | None -> false)) subs
         | _ -> false)
     || id_flows_on top rest
+
+let () = kv_value_dependent := (fun (c : case) ->
+    c.haskv && begin
+      nested_kv := (let n = ref 0 in ignore (chain_has (fun s -> if is_kv s then incr n; false) c.path.p_root); !n >= 2);
+      id_flows_on true c.path.p_root
+    end)
 
 (* ---------- T: model vs implementation ---------- *)
 let tie_leg (c : case) =
